@@ -56,15 +56,20 @@ theorem C17_insert_balanced (full : Bool) (sh : Shape) (failAt : Nat) :
     (∀ o arr, gained = some (o, arr) → arr.isSome = full) :=
   insert_summary failAt full sh
 
-/-- cif_value_set_element_at (clone into the EXISTING element object; the source marks this path "TODO: check safety in
-    case of failure"), every element shape, every fault position: no double / invalid free; on failure nothing
-    allocated in the call stays live (and the target object itself is never released); on success exactly the blocks
-    the target gained are live; CIF_OK exactly when no request failed. -/
-theorem C17_set_element_balanced (sh : Shape) (failAt : Nat) :
-    let (rc, gained, st) := setElement failAt sh
-    Balanced st.evs (match gained with | some g => g | none => []) ∧
-    (rc = OK ∨ rc = MEMORY_ERROR) ∧ (rc = OK ↔ gained.isSome) ∧ (rc = OK ↔ NoFail st.evs) :=
-  set_summary failAt sh
+/-- cif_value_set_element_at (cif_value_clone onto the EXISTING element object; since /repo f1b092b the copy is built in
+    a scratch object first), every target `old`, every source shape, every fault position, from ANY state `s` in which
+    the events so far are balanced with the target's blocks `old.ids` (and any other blocks `rest`) live and no live id
+    exceeds the request counter:  no double / invalid free;  on failure nothing allocated in the call stays live and
+    EVERY block of the target is still live — the target is untouched (a released id can never become live again, ids
+    being fresh);  on success exactly the target object with the new components is live: the old components and the
+    scratch object have been released, each once;  CIF_OK exactly when no request of the call failed. -/
+theorem C17_set_element_balanced (sh : Shape) (failAt : Nat) (s : St) (old : Owned) (rest : List Nat)
+    (hb : Balanced s.evs (old.ids ++ rest)) (hc : ∀ i ∈ old.ids ++ rest, i ≤ s.count) :
+    let (rc, gained, st) := setElement failAt old sh s
+    (rc = OK ∨ rc = MEMORY_ERROR) ∧ (rc = OK ↔ gained.isSome) ∧
+    Balanced st.evs (match gained with | some g => old.obj :: g ++ rest | none => old.ids ++ rest) ∧
+    (rc = OK ↔ failIds st.evs = failIds s.evs) :=
+  set_summary failAt old sh s rest hb hc
 
 /-- cif_loop_get_names (cif_loop_get_names_internal without normalisation, stored loop with `n` item names) WITH THE
     PROPOSED ONE-LINE REPAIR (notes/agents/gI-fixes.diff), every `n`, every fault position: no double / invalid free;
@@ -91,7 +96,7 @@ theorem C17_cex_get_names_leak (n failAt : Nat) :
 /-- the fault position is reached iff it is one of the allocation requests of the fault-free run
     (1 ≤ failAt ≤ their number); then exactly one `fail` event occurs — the request number `failAt` — and it is the
     last request of the call (the ladders only release afterwards); otherwise the run makes the same number of
-    requests as the fault-free run.  For all five ladders (get_names: as the code is and repaired). -/
+    requests as the fault-free run.  For all five ladders (get_names: pinned and repaired; set_element_at: from any consistent start state). -/
 theorem C17_fault_reached_iff (failAt : Nat) :
     (∀ n, let st := (dupUstrings failAt n).2.2
           (¬ NoFail st.evs ↔ 1 ≤ failAt ∧ failAt ≤ (dupUstrings 0 n).2.2.count) ∧
@@ -105,10 +110,11 @@ theorem C17_fault_reached_iff (failAt : Nat) :
           (¬ NoFail st.evs ↔ 1 ≤ failAt ∧ failAt ≤ (insertElement 0 full sh).2.2.count) ∧
           (¬ NoFail st.evs → failIds st.evs = [failAt] ∧ st.count = failAt) ∧
           (NoFail st.evs → st.count = (insertElement 0 full sh).2.2.count)) ∧
-    (∀ sh, let st := (setElement failAt sh).2.2
-          (¬ NoFail st.evs ↔ 1 ≤ failAt ∧ failAt ≤ (setElement 0 sh).2.2.count) ∧
-          (¬ NoFail st.evs → failIds st.evs = [failAt] ∧ st.count = failAt) ∧
-          (NoFail st.evs → st.count = (setElement 0 sh).2.2.count)) ∧
+    (∀ sh s old rest, Balanced s.evs (old.ids ++ rest) → (∀ i ∈ old.ids ++ rest, i ≤ s.count) →
+          let st := (setElement failAt old sh s).2.2          -- requests are numbered on from s.count
+          (failIds st.evs ≠ failIds s.evs ↔ s.count < failAt ∧ failAt ≤ (setElement 0 old sh s).2.2.count) ∧
+          (failIds st.evs ≠ failIds s.evs → failIds st.evs = failIds s.evs ++ [failAt] ∧ st.count = failAt) ∧
+          (failIds st.evs = failIds s.evs → st.count = (setElement 0 old sh s).2.2.count)) ∧
     (∀ fixed n, let st := (getNamesGen fixed failAt n).2.2
           (¬ NoFail st.evs ↔ 1 ≤ failAt ∧ failAt ≤ (getNamesGen fixed 0 n).2.2.count) ∧
           (¬ NoFail st.evs → failIds st.evs = [failAt] ∧ st.count = failAt) ∧
@@ -116,7 +122,7 @@ theorem C17_fault_reached_iff (failAt : Nat) :
   ⟨fun n => fault_of_outcomes (dup_outcome 0 n) (dup_outcome failAt n),
    fun sh => fault_of_outcomes (clone_outcome 0 sh) (clone_outcome failAt sh),
    fun full sh => fault_of_outcomes (insert_outcome 0 full sh) (insert_outcome failAt full sh),
-   fun sh => fault_of_outcomes (set_outcome 0 sh) (set_outcome failAt sh),
+   fun sh s old rest hb hc => fault_of_outcomes_from (set_outcome 0 old sh s rest hb hc) (set_outcome failAt old sh s rest hb hc),
    fun fixed n => fault_of_outcomes (names_outcome fixed 0 n) (names_outcome fixed failAt n)⟩
 
 -- ---------------------------------------------------------------------------------------------------------------
@@ -157,14 +163,28 @@ example : (insertElement 5 true (.lst [.chr])).1 = MEMORY_ERROR ∧
 /-- the fault position 5 is beyond the 4 requests of the non-full insertion: not reached, CIF_OK -/
 example : (insertElement 5 false (.lst [.chr])).1 = OK ∧ (insertElement 0 false (.lst [.chr])).2.2.count = 4 := by decide
 
-/-- replacing an element by `[ 1.5(2) 'a' ]` (7 requests: array, two element objects, 3 + 1 component blocks); the
-    5th request (su_digits of the number) fails: digits, text, the element object and the new array are released, the
-    target object is not (it is not a block of the window at all) -/
-example : (setElement 0 (.lst [.numb true, .chr])).2.2.count = 7 ∧
-    (setElement 5 (.lst [.numb true, .chr])).1 = MEMORY_ERROR ∧
-    (setElement 5 (.lst [.numb true, .chr])).2.2.evs =
-      [.alloc 1, .alloc 2, .alloc 3, .alloc 4, .fail 5, .free 4, .free 3, .free 2, .free 1] ∧
-    final (setElement 5 (.lst [.numb true, .chr])).2.2.evs = some [] := by decide +kernel
+/-- the element `[ 'x' ]` (object 1, array 2, element object 3, text 4 — built by a fault-free clone from the empty
+    state, so the hypotheses of C17_set_element_balanced hold) is replaced by `[ 1.5(2) 'a' ]` (8 requests: scratch
+    object, array, two element objects, 3 + 1 component blocks).  Request 4 + 6 (su_digits of the number) fails: digits,
+    text, the element object, the new array and the scratch object are released and NO block of the target is. -/
+example :
+    let old : Owned := .lst 1 2 [.chr 3 4]
+    let s0 := (clone 0 (.lst [.chr])).2
+    (clone 0 (.lst [.chr])).1.map (·.ids) = some old.ids ∧ final s0.evs = some [4, 3, 2, 1] ∧ s0.count = 4 ∧
+    (setElement 0 old (.lst [.numb true, .chr]) s0).2.2.count = 4 + 8 ∧
+    (setElement 10 old (.lst [.numb true, .chr]) s0).1 = MEMORY_ERROR ∧
+    (setElement 10 old (.lst [.numb true, .chr]) s0).2.2.evs.drop 4 =
+      [.alloc 5, .alloc 6, .alloc 7, .alloc 8, .alloc 9, .fail 10, .free 9, .free 8, .free 7, .free 6, .free 5] ∧
+    final (setElement 10 old (.lst [.numb true, .chr]) s0).2.2.evs = some [4, 3, 2, 1] := by decide +kernel
+
+/-- …and without a fault: the old text 4, old element object 3, old array 2 and the scratch object 5 are released;
+    the target object 1 now owns the blocks 6 … 12 -/
+example :
+    let old : Owned := .lst 1 2 [.chr 3 4]
+    let s0 := (clone 0 (.lst [.chr])).2
+    (setElement 0 old (.lst [.numb true, .chr]) s0).1 = OK ∧
+    (setElement 0 old (.lst [.numb true, .chr]) s0).2.2.evs.drop (4 + 8) = [.free 4, .free 3, .free 2, .free 5] ∧
+    (final (setElement 0 old (.lst [.numb true, .chr]) s0).2.2.evs).map (·.length) = some 8 := by decide +kernel
 
 /-- cif_loop_get_names on 2 names, the 4th request (the 2nd name's string) fails.  As the code is: the first entry is
     released (string 2, node 1) but node 3 stays live — the checker reports the leak; repaired: node 3 is released. -/
